@@ -6,9 +6,22 @@
 //!         | repo    (real repository on the in-memory backend: the crafted index files are saved with
 //!                    `save_file`, the repository is re-opened and indexed with `to_indexed` / `to_indexed_ids`
 //!                    (/ `drop_data_from_index`), i.e. through `GlobalIndex::new_from_collector`)
-//!   files = index files joined by `/` (`-` = none); file = `<packs>|<packs_to_delete>`; pack list = `-` or packs
+//!   files = index files joined by `/` (`-` = none); file = `<packs>|<packs_to_delete>[|<fault>]`; pack list = `-` or packs
 //!           joined by `,`; pack = `<id64>:<size|->:<blobs>`; blobs = `-` or blobs joined by `+`;
 //!           blob = `<id64>.<t|d>.<offset>.<length>.<ulen|->`
+//!   fault (src = repo only; the file is saved like the others, then fetching it is made to fail):
+//!           `read`      the backend's read of exactly this file returns an error             -> Backend
+//!           `flip.<n>`  bit `n mod (8*len)` of the stored bytes flipped (MAC mismatch)        -> Cryptography
+//!           `trunc.<n>` only the first `n mod len` stored bytes kept                           -> Cryptography
+//!           `junk`      replaced by non-JSON plaintext sealed with the repository key          -> Cryptography (`decrypt_file`: unsupported)
+//!           `badzstd`   … by `2` + bytes that are not a zstd frame, sealed                     -> Cryptography
+//!           `notjson`   … by `{` + something that is not JSON, sealed                           -> Internal
+//!           `notindex`  … by valid JSON that is not an index file (`[1,2,3]`), sealed          -> Internal
+//!   Loading must then FAIL: observation `err:<Kind>` (several faulty files of different kinds: the parallel stream decides
+//!   which error is met first — `err:one-of:<kinds>`, and the harness checks the real kind is one of them).
+//!   Oracle whenever loading returns Ok (with or without faults): every blob that any saved index file lists in an unmarked
+//!   pack is found (`oracle-fail:listed-blob-missing`) and the totals are the sums over all saved files' unmarked packs
+//!   (`oracle-fail:total-size`) — an index that silently lacks a file can never pass.
 //!   queries = `-` or 64-hex ids joined by `,`
 //! Observation: `ok ts=<tree total>,<data total> q=<hasT><hasD>,<getT>,<getD>;… it=<packs in iteration order>`
 //!   get = `n` | `s:<pack>:<off>:<len>:<ulen>` | `amb:<all distinct listings, sorted>` — the latter when more than one
@@ -21,6 +34,9 @@ use std::collections::BTreeSet;
 use std::num::NonZeroU32;
 
 use crate::repo::{MemBackend, RepoHandle};
+use bytes::Bytes;
+use rustic_core::repofile::FileType;
+use rustic_core::verif::aespoly1305::CryptoKey;
 use crate::util::{Rng, Stats, errkind, guarded};
 use rustic_core::repofile::{BlobType, IndexBlob, IndexFile, IndexPack, PackId};
 use rustic_core::verif::binarysorted as bs;
@@ -232,6 +248,39 @@ pub fn generate(thorough: bool, rng: &mut Rng, ops: &mut Vec<String>, stats: &mu
         }
         stats.hit(format!("files.{}", files.len()));
         stats.add("packs", all_packs.len() as u64);
+        // load faults (repo source): fetching one (sometimes two, rarely every) of the saved index files fails
+        if src == "repo" && !files.is_empty() && rng.chance(1, 2) {
+            stats.hit("fault.cases");
+            let n = files.len();
+            let hit: Vec<usize> = match rng.below(20) {
+                0 => (0..n).collect(),
+                1..=4 if n > 1 => {
+                    let a = rng.below(n as u64) as usize;
+                    let b = (a + 1 + rng.below(n as u64 - 1) as usize) % n;
+                    vec![a, b]
+                }
+                _ => vec![rng.below(n as u64) as usize],
+            };
+            if hit.len() > 1 {
+                stats.hit("fault.multi");
+            }
+            if hit.len() < n {
+                stats.hit("fault.some-files-load-fine");
+            }
+            for i in hit {
+                let f = match rng.below(8) {
+                    0 | 1 => "read".to_string(),
+                    2 => format!("flip.{}", rng.below(1 << 20)),
+                    3 => format!("trunc.{}", if rng.chance(1, 3) { rng.below(40) } else { rng.below(1 << 20) }),
+                    4 => "junk".to_string(),
+                    5 => "badzstd".to_string(),
+                    6 => "notjson".to_string(),
+                    _ => "notindex".to_string(),
+                };
+                stats.hit(format!("fault.{}", f.split('.').next().unwrap_or("?")));
+                files[i] = format!("{}|{f}", files[i]);
+            }
+        }
         // queries: every listed id (marked or not), near misses, ids of the pool that are listed nowhere
         let mut qs: BTreeSet<[u8; 32]> = BTreeSet::new();
         let un: BTreeSet<[u8; 32]> = unmarked_ids.iter().copied().collect();
@@ -311,14 +360,56 @@ fn parse_packs(s: &str) -> Option<Vec<IndexPack>> {
     if s == "-" { Some(vec![]) } else { s.split(',').map(parse_pack).collect() }
 }
 
-pub fn parse_files(s: &str) -> Option<Vec<IndexFile>> {
+/// how fetching one saved index file is made to fail
+#[derive(Clone, Copy, Debug, PartialEq, Eq)]
+pub enum Fault {
+    Read,
+    Flip(u64),
+    Trunc(u64),
+    Junk,
+    BadZstd,
+    NotJson,
+    NotIndex,
+}
+
+impl Fault {
+    /// the `ErrorKind` `get_file` maps this failure to (Model/IndexLoad.lean `getFile`)
+    fn kind(self) -> &'static str {
+        match self {
+            Self::Read => "Backend",
+            Self::Flip(_) | Self::Trunc(_) | Self::Junk | Self::BadZstd => "Cryptography",
+            Self::NotJson | Self::NotIndex => "Internal",
+        }
+    }
+}
+
+fn parse_fault(s: &str) -> Option<Fault> {
+    let f: Vec<&str> = s.split('.').collect();
+    Some(match f.as_slice() {
+        ["read"] => Fault::Read,
+        ["flip", n] => Fault::Flip(n.parse().ok()?),
+        ["trunc", n] => Fault::Trunc(n.parse().ok()?),
+        ["junk"] => Fault::Junk,
+        ["badzstd"] => Fault::BadZstd,
+        ["notjson"] => Fault::NotJson,
+        ["notindex"] => Fault::NotIndex,
+        _ => return None,
+    })
+}
+
+pub fn parse_files(s: &str) -> Option<Vec<(IndexFile, Option<Fault>)>> {
     if s == "-" {
         return Some(vec![]);
     }
     s.split('/')
         .map(|f| {
-            let (p, d) = f.split_once('|')?;
-            Some(IndexFile { supersedes: None, packs: parse_packs(p)?, packs_to_delete: parse_packs(d)? })
+            let parts: Vec<&str> = f.split('|').collect();
+            let fault = match parts.len() {
+                2 => None,
+                3 => Some(parse_fault(parts[2])?),
+                _ => return None,
+            };
+            Some((IndexFile { supersedes: None, packs: parse_packs(parts[0])?, packs_to_delete: parse_packs(parts[1])? }, fault))
         })
         .collect()
 }
@@ -396,7 +487,37 @@ fn iter_obs(index: bs::Index) -> String {
     if packs.is_empty() { "-".to_string() } else { packs.join(",") }
 }
 
-fn run(mode: &str, src: &str, files: Vec<IndexFile>, queries: &[BlobId]) -> String {
+/// Direct oracle on an index that loading handed out: every blob that a saved index file lists in an unmarked pack is found
+/// (under the pack's type, for the types whose ids the mode retains), and the totals are the sums of `pack_size()` over ALL
+/// saved files' unmarked packs.
+fn complete_oracle(files: &[IndexFile], mode: &str, has: &dyn Fn(BlobType, &BlobId) -> bool, ts: (u64, u64)) -> Option<String> {
+    let mut want = (0u64, 0u64);
+    for f in files {
+        for p in &f.packs {
+            let t = p.blob_type();
+            let retained = t == BlobType::Tree || mode != "dropdata";
+            match t {
+                BlobType::Tree => want.0 += u64::from(p.pack_size()),
+                BlobType::Data if retained => want.1 += u64::from(p.pack_size()),
+                BlobType::Data => {}
+            }
+            if retained && p.blobs.iter().any(|b| !has(t, &b.id)) {
+                return Some("oracle-fail:listed-blob-missing".into());
+            }
+        }
+    }
+    if want != ts {
+        return Some("oracle-fail:total-size".into());
+    }
+    None
+}
+
+fn run(mode: &str, src: &str, files: Vec<(IndexFile, Option<Fault>)>, queries: &[BlobId]) -> String {
+    let faults: Vec<Option<Fault>> = files.iter().map(|f| f.1).collect();
+    let files: Vec<IndexFile> = files.into_iter().map(|f| f.0).collect();
+    if src != "repo" && faults.iter().any(Option::is_some) {
+        return "bad-op".into();
+    }
     let types = [BlobType::Tree, BlobType::Data];
     let mut qobs = Vec::new();
     let ts;
@@ -446,9 +567,35 @@ fn run(mode: &str, src: &str, files: Vec<IndexFile>, queries: &[BlobId]) -> Stri
             };
             {
                 let dbe = rustic_core::verif::repository::dbe(&repo);
-                for f in &files {
-                    if let Err(e) = dbe.save_file(f) {
-                        return errkind(&e);
+                let seal = |plain: &[u8]| dbe.key().encrypt_data(plain).map(Bytes::from);
+                for (f, fault) in files.iter().zip(&faults) {
+                    let id = match dbe.save_file(f) {
+                        Ok(id) => Id::from(id),
+                        Err(e) => return errkind(&e),
+                    };
+                    let Some(fault) = fault else { continue };
+                    let Some(stored) = h.be.get(FileType::Index, &id) else { return "oracle-fail:saved-index-file-not-stored".into() };
+                    let replaced = match fault {
+                        Fault::Read => {
+                            h.be.set_fail_reads_of(FileType::Index, id, true);
+                            continue;
+                        }
+                        Fault::Flip(n) => {
+                            let mut v = stored.to_vec();
+                            let bit = (*n % (8 * v.len() as u64)) as usize;
+                            v[bit / 8] ^= 1 << (bit % 8);
+                            Ok(Bytes::from(v))
+                        }
+                        Fault::Trunc(n) => Ok(stored.slice(0..(*n % stored.len() as u64) as usize)),
+                        Fault::Junk => seal(b"this is not a repository file"),
+                        Fault::BadZstd => seal(b"\x02certainly no zstd frame"),
+                        Fault::NotJson => seal(b"{\"packs\": [ {\"id\": "),
+                        Fault::NotIndex => seal(b"[1,2,3]"),
+                    };
+                    match replaced {
+                        // the file keeps its id (a damaged file is still listed under its name)
+                        Ok(b) => h.be.put_raw(FileType::Index, id, b),
+                        Err(e) => return errkind(&e),
                     }
                 }
             }
@@ -481,18 +628,40 @@ fn run(mode: &str, src: &str, files: Vec<IndexFile>, queries: &[BlobId]) -> Stri
                     tsz
                 }};
             }
+            // a failed load: the error of ONE of the faulty files (whichever the parallel stream meets first)
+            let load_err = |e: &rustic_core::RusticError| -> String {
+                let got = errkind(e);
+                let mut kinds: Vec<&str> = faults.iter().flatten().map(|f| f.kind()).collect();
+                kinds.sort_unstable();
+                kinds.dedup();
+                if kinds.len() > 1 && kinds.iter().any(|k| got == format!("err:{k}")) {
+                    return format!("err:one-of:{}", kinds.join(","));
+                }
+                got
+            };
+            macro_rules! observe_checked {
+                ($r:expr) => {{
+                    let r = $r;
+                    let tsz = observe!(&r);
+                    let has = |t: BlobType, id: &BlobId| rustic_core::verif::repository::index_has(&r, t, id);
+                    if let Some(o) = complete_oracle(&files, mode, &has, tsz) {
+                        return o;
+                    }
+                    tsz
+                }};
+            }
             ts = match mode {
                 "full" => match repo.to_indexed() {
-                    Ok(r) => observe!(r),
-                    Err(e) => return errkind(&e),
+                    Ok(r) => observe_checked!(r),
+                    Err(e) => return load_err(&e),
                 },
                 "ids" => match repo.to_indexed_ids() {
-                    Ok(r) => observe!(r),
-                    Err(e) => return errkind(&e),
+                    Ok(r) => observe_checked!(r),
+                    Err(e) => return load_err(&e),
                 },
                 "dropdata" => match repo.to_indexed() {
-                    Ok(r) => observe!(r.drop_data_from_index()),
-                    Err(e) => return errkind(&e),
+                    Ok(r) => observe_checked!(r.drop_data_from_index()),
+                    Err(e) => return load_err(&e),
                 },
                 _ => return "bad-op".into(),
             };
